@@ -833,7 +833,7 @@ func main() {
 		},
 		Cases: func(tier string) int {
 			if tier == "thorough" {
-				return 150000
+				return 60000
 			}
 			return 3000
 		},
